@@ -21,6 +21,8 @@
 //   hashmut <value1> <value2>     Header: build value1, Hash(), overwrite the fields with
 //                                 value2, Hash() again
 //   schema <Type>                 the harness's schema of the type, expanded
+//   babepre <value>               BABE pre-digest: <variant>.ToPreRuntimeDigest() and
+//                                 types.DecodeBabePreDigest of its Data
 //   breq <rd> <h:hex|n:num> <dir> <none|max>         BlockRequestMessage Encode / Decode
 //   bresp <blockdata>,...|-                          BlockResponseMessage Encode / Decode, see c14RunResp
 // observables:
@@ -29,6 +31,7 @@
 //   dec     -> <decoded value> | err
 //   hashmut -> <hash before> <hash after> <encoding after>
 //   schema  -> <schema>
+//   babepre -> <ConsensusEngineID> <Data> <value decoded from Data | err>
 //   breq    -> <encoding> <rd> <h:hex|n:num> <dir> <none|max> | <encoding> err
 //   bresp   -> <encoding> <decoded block data list | err>
 package grandpa
@@ -58,8 +61,8 @@ import (
 
 var c14Schemas = map[string]string{
 	"EnginePayload": "{ConsensusEngineID:f4,Data:b}",
-	"DigestItem": "e[0=Other:b|4=Consensus:@EnginePayload|5=Seal:@EnginePayload|" +
-		"6=PreRuntime:@EnginePayload|8=RuntimeEnvironmentUpdated:{}]",
+	"DigestItem": "e[0=OtherDigest:b|4=ConsensusDigest:@EnginePayload|5=SealDigest:@EnginePayload|" +
+		"6=PreRuntimeDigest:@EnginePayload|8=RuntimeEnvironmentUpdated:{}]",
 	"Header": "{ParentHash:f32,Number:c,StateRoot:f32,ExtrinsicsRoot:f32,Digest:v<@DigestItem>}",
 	"Digest": "v<@DigestItem>",
 	"Body":   "v<b>",
@@ -431,8 +434,13 @@ func c14GenLen(r *vu.RNG, budget int) int {
 			return 63 + r.Intn(3)
 		}
 		return r.Intn(4)
+	case 5: // longer than anything a fixed small bound would cover
+		if budget >= 16 {
+			return 5 + r.Intn(12)
+		}
+		return r.Intn(7)
 	default:
-		return r.Intn(5)
+		return r.Intn(7)
 	}
 }
 
@@ -456,7 +464,7 @@ func c14Gen(r *vu.RNG, s *c14S, budget int) *c14V {
 		return &c14V{kind: 'x', bytes: b}
 	case 'b':
 		n := c14GenLen(r, 1000)
-		if r.Chance(1, 40) {
+		if r.Chance(1, 400) {
 			n = 16383 + r.Intn(3) // crosses the two-byte compact length
 		}
 		return &c14V{kind: 'x', bytes: r.Bytes(n)}
@@ -571,6 +579,10 @@ func c14Build(s *c14S, v *c14V, dst reflect.Value) error {
 		if err != nil {
 			return fmt.Errorf("%w%d", errC14Variant, v.idx)
 		}
+		// the index must select the Go type that stands for the specified variant
+		if got := reflect.TypeOf(zero).Name(); got != s.names[i] {
+			return fmt.Errorf("%w%d_is_%s_not_%s", errC14Variant, v.idx, got, s.names[i])
+		}
 		nv := reflect.New(reflect.TypeOf(zero)).Elem()
 		if err := c14Build(s.parts[i], v.list[0], nv); err != nil {
 			return err
@@ -594,7 +606,11 @@ func c14Read(s *c14S, src reflect.Value) (*c14V, error) {
 			reflect.Copy(reflect.ValueOf(b), src)
 			return &c14V{kind: 'x', bytes: b}, nil
 		case reflect.String:
-			return &c14V{kind: 'x', bytes: []byte(src.String())}, nil
+			// hash.H256 is a string; the empty string stands for the zero hash (MarshalSCALE
+			// copies the string into a [32]byte), so read it the way it is encoded
+			b := make([]byte, s.n)
+			copy(b, src.String())
+			return &c14V{kind: 'x', bytes: b}, nil
 		}
 		return nil, fmt.Errorf("fixed bytes from %s", src.Type())
 	case 'b':
@@ -652,6 +668,9 @@ func c14Read(s *c14S, src reflect.Value) (*c14V, error) {
 		i, ok := s.variant(int(idx))
 		if !ok {
 			return nil, fmt.Errorf("variant %d not in the schema", idx)
+		}
+		if got := reflect.TypeOf(val).Name(); got != s.names[i] {
+			return nil, fmt.Errorf("variant %d is %s, not %s", idx, got, s.names[i])
 		}
 		e, err := c14Read(s.parts[i], reflect.ValueOf(val))
 		if err != nil {
@@ -1007,9 +1026,45 @@ func c14RunResp(vs string) string {
 	return vu.Hex(enc) + " " + out.String()
 }
 
+type c14PreRuntimer interface {
+	ToPreRuntimeDigest() (*types.PreRuntimeDigest, error)
+}
+
+func c14RunBabePre(vs string) string {
+	s := c14SchemaOf("BabeDigest")
+	d := new(types.BabeDigest)
+	if err := c14Build(s, c14ParseValue(vs), reflect.ValueOf(d).Elem()); err != nil {
+		return "err:build:" + strings.ReplaceAll(err.Error(), " ", "_")
+	}
+	inner, err := d.Value()
+	if err != nil {
+		return "err:value"
+	}
+	p, ok := inner.(c14PreRuntimer)
+	if !ok {
+		return "err:notpreruntimer"
+	}
+	pre, err := p.ToPreRuntimeDigest()
+	if err != nil {
+		return "err:topre"
+	}
+	back := "err"
+	if v, err := types.DecodeBabePreDigest(pre.Data); err == nil {
+		nd := new(types.BabeDigest)
+		if err := nd.SetValue(v); err == nil {
+			if r, err := c14Read(s, reflect.ValueOf(nd).Elem()); err == nil {
+				back = r.String()
+			}
+		}
+	}
+	return vu.Hex(pre.ConsensusEngineID[:]) + " " + vu.Hex(pre.Data) + " " + back
+}
+
 func c14Run(in string) string {
 	f := strings.Split(in, " ")
 	switch f[0] {
+	case "babepre":
+		return c14RunBabePre(f[1])
 	case "val":
 		return c14RunVal(f[1], f[2])
 	case "dec":
@@ -1073,12 +1128,20 @@ func c14GenCases(r *vu.RNG, n int, emit func(string)) {
 	for i := 0; i < n; i++ {
 		switch k := r.Intn(20); {
 		case k < 5:
-			emit("val Header " + c14Gen(r, hs, 16).String())
+			budget := 16
+			if r.Chance(1, 25) {
+				budget = 64
+			}
+			emit("val Header " + c14Gen(r, hs, budget).String())
 		case k < 7:
 			v1 := c14Gen(r, hs, 8)
 			emit("hashmut " + v1.String() + " " + c14MutateHeader(r, hs, v1).String())
 		case k < 9:
-			emit(c14GenReq(r))
+			if r.Chance(1, 3) {
+				emit("babepre " + c14Gen(r, c14SchemaOf("BabeDigest"), 8).String())
+			} else {
+				emit(c14GenReq(r))
+			}
 		case k < 11:
 			emit("bresp " + c14Gen(r, c14SchemaOf("BlockDataList"), 8).String())
 		default:
